@@ -1,4 +1,5 @@
 import ScVerif.C20.PublicationLemmas
+import ScVerif.C20.PublicationReceipt
 /-!
 # C20 — property theorems, Publication
 
@@ -55,6 +56,64 @@ theorem C20_pub_fresh (H : Hash) (now : Int) (s : Store) (op : Op) (id : String)
         · simp [hv] at hok
         · simp only [hv, if_false]
           exact ⟨_, lookup_set_self _ _ _, key _⟩
+
+/-- the clock never goes back along an op sequence -/
+def MonoFrom : Int → List (Int × Op) → Prop
+  | _, [] => True
+  | t, o :: rest => t ≤ o.1 ∧ MonoFrom o.1 rest
+
+/-- **The receipt belongs to the stored version, after every op sequence, every route**: for every hash,
+every sequence of create / create-with-generated-id / update (mask-less or any mask, audience paths
+included) / delete / acknowledge (any receipt value, NO_SIGNAL and repeated ones included) under a clock
+that never goes back, every stored publication has a publish time, and a recorded receipt time is
+never before it (nor in the future): no version carries an acknowledgement older than itself. -/
+theorem C20_pub_receipt_after_publish (H : Hash) (ops : List (Int × Op)) :
+    ∀ (s : Store) (t : Int), RInv t s → MonoFrom t ops → ∃ t', RInv t' (run H s ops) := by
+  induction ops with
+  | nil => intro s t h _; exact ⟨t, h⟩
+  | cons o rest ih =>
+    intro s t h hm
+    exact ih _ _ (rinv_step H t o.1 s o.2 h hm.1) hm.2
+
+/-- the empty store satisfies the invariant; monotone sequences exist -/
+example : RInv 0 [] ∧ MonoFrom 0 [(1, Op.create ⟨"p", "b", "", none, "", none⟩), (1, .ack "p" "v" 1 "late" false)] :=
+  ⟨fun id p h => by simp [lookup] at h, by simp [MonoFrom]⟩
+
+/-- **A new version never inherits receipt details — every route that mints one**: create, create with a
+generated id, and update under EVERY mask (also masks that do not touch the audience, so that the stored
+audience with the receipt of the previous version is what reaches the interceptor) store an audience
+with receipt NO_SIGNAL, no reason and no receipt time — whatever receipt/time/reason the stored
+publication or the request carried, `receipt = NO_SIGNAL` with leftover details included. -/
+theorem C20_pub_new_version_resets_receipt (H : Hash) (now : Int) (s : Store) (op : Op) (id : String)
+    (hop : (∃ p, op = .create p ∧ p.id = id) ∨ (∃ p, op = .createGen p id) ∨
+           (∃ p m v, op = .update p m v ∧ p.id = id))
+    (hok : (step H now s op).2 = .ok) :
+    ∃ q, lookup id (step H now s op).1 = some q ∧ q.publishTime = some now ∧
+      ∀ a, q.audience = some a → a.receipt = 1 ∧ a.reason = "" ∧ a.receiptTime = none := by
+  have key : ∀ p : Pub, (computed H now p).publishTime = some now ∧
+      ∀ a, (computed H now p).audience = some a → a.receipt = 1 ∧ a.reason = "" ∧ a.receiptTime = none := by
+    intro p
+    refine ⟨rfl, ?_⟩
+    intro a ha
+    unfold computed at ha
+    cases hp : p.audience with
+    | none => simp [hp] at ha
+    | some a0 => simp [hp] at ha; subst ha; exact ⟨rfl, rfl, rfl⟩
+  rcases hop with ⟨p, rfl, rfl⟩ | ⟨p, rfl⟩ | ⟨p, m, v, rfl, rfl⟩
+  · obtain ⟨q, h1, h2, _, h4⟩ := C20_pub_fresh H now s (.create p) p.id (Or.inl ⟨p, rfl, rfl⟩) hok
+    exact ⟨q, h1, h2, h4⟩
+  · simp only [step] at hok ⊢
+    split
+    · next h => simp [h] at hok
+    · exact ⟨_, lookup_set_self _ _ _, key _⟩
+  · obtain ⟨q, h1, h2, _, h4⟩ := C20_pub_fresh H now s (.update p m v) p.id (Or.inr ⟨p, m, v, rfl, rfl⟩) hok
+    exact ⟨q, h1, h2, h4⟩
+
+/-- the case a guard `receipt ≠ NO_SIGNAL` would miss: acknowledge with NO_SIGNAL + a reason stamps a
+receipt time; a body-only update then still resets all three fields -/
+example : (run (fun a _ _ _ => a) [] [(1, .create ⟨"p", "b", "", some ⟨"n", 0, "", none⟩, "", none⟩),
+      (2, .ack "p" "p" 1 "why" false), (3, .update ⟨"p", "b2", "", none, "", none⟩ (.fields true false .none) "")])
+    = [("p", ⟨"p", "b2", "", some ⟨"n", 1, "", none⟩, "p", some 3⟩)] := by decide
 
 /-- **Generated ids**: creating with an empty id stores the publication under the id `g` the collection
 generated (non-empty and new — what `GenerateUniqueId` guarantees and the monitor checks): the record
